@@ -4,7 +4,7 @@ import json, os
 
 CLAIMS = {
  "C12": {
-  "text": "Decides: source routing of the access ops (ThisAddress / ThisContractAddress read the predicate / contract field of this_solution(); PredicateData* read this_solution().predicate_data; PredicateExists receives the whole set); checked range resolution (usize::try_from, checked_add, slice.get only, the popped words feed (value_ix, len) in the documented order); sibling encodings agree (the VM's and essential-sign's 33-byte public-key encodings have the same structure, recover pops id / 8 / 4 words and rebuilds the compact signature and digest, the 9-word signature layout); every SHA-256 user is new/update(input)/finalize; the PredicateExists pre-image order (len-prefixed slots, contract, predicate, big-endian bytes); five zero words on an unrecoverable signature. Partial claim: byte-length marshalling (pop_bytes rounding/truncation) and cryptographic answers are not decided. Also decided: byte operands (ceil(len/8) words, big-endian bytes in stack order, cut to len), VerifyEd25519 pop order / verify(key, data, signature) / pushed bit, and that every result of the range resolver is the checked sub-slice. The sign crate recovers a key exactly where secp256k1 does (acceptance tables), so the op and essential_sign agree on which signatures yield a key. pop_words hands over the top n words in stack order and removes them. predicate_data fails only where a pop, the range, the lookup or the push fails; the 9th signature word is exactly the recovery id.",
+  "text": "Decides: source routing of the access ops (ThisAddress / ThisContractAddress read the predicate / contract field of this_solution(); PredicateData* read this_solution().predicate_data; PredicateExists receives the whole set); checked range resolution (usize::try_from, checked_add, slice.get only, the popped words feed (value_ix, len) in the documented order); sibling encodings agree (the VM's and essential-sign's 33-byte public-key encodings have the same structure, recover pops id / 8 / 4 words and rebuilds the compact signature and digest, the 9-word signature layout); every SHA-256 user is new/update(input)/finalize; the PredicateExists pre-image order (len-prefixed slots, contract, predicate, big-endian bytes); five zero words on an unrecoverable signature. Partial claim: byte-length marshalling (pop_bytes rounding/truncation) and cryptographic answers are not decided. Also decided: byte operands (ceil(len/8) words, big-endian bytes in stack order, cut to len), VerifyEd25519 pop order / verify(key, data, signature) / pushed bit, and that every result of the range resolver is the checked sub-slice. The sign crate recovers a key exactly where secp256k1 does (acceptance tables), so the op and essential_sign agree on which signatures yield a key. pop_words hands over the top n words in stack order and removes them. predicate_data fails only where a pop, the range, the lookup or the push fails; the 9th signature word is exactly the recovery id. The checker builds each node's Access from all solutions of the set and the solution index.",
   "note": "Trusted: sha2, secp256k1, ed25519-dalek.",
   "technique": "static analysis: provenance of call arguments against expected source fields, structural comparison of sibling encoders, call-sequence whitelists",
   "design_ref": "3/C12",
@@ -16,7 +16,7 @@ CLAIMS = {
   "design_ref": "3/C14",
  },
  "C18": {
-  "text": "Partial claim: round-trip equality over all values is value-level and NOT decided. Decided necessary conditions: big-endian pair and identity layouts of the four fixed-width converters and of Signature <-> [u8; 65]; every serde serializer/deserializer pair branches on is_human_readable with the same polarity and the same family (hex / sequence) on each side; predicate and mutation encoders, size helpers and decoders agree on offsets (linear forms), the list codec writes/reads the count first and advances by encode_size; node_edges is empty exactly for edge_start == MAX and otherwise a checked sub-range; the legacy field names (data, decision_variables) reach the same fields as the current names and only current names are written; Display/FromStr use encode_upper/decode with the same array length. Also decided: derived binary framing (every struct field written unconditionally in order; visit_seq reads one element per field in that order) and that list decoders stop exactly at the end of input. The predicate decoder returns only after reading all four parts; human-readable deserializers accept owned input. words <-> hex text both go through bytes_from_word / word_from_bytes and the hex crate. Predicate::{encode,decode,encoded_size} forward their argument unchanged to the codec functions.",
+  "text": "Partial claim: round-trip equality over all values is value-level and NOT decided. Decided necessary conditions: big-endian pair and identity layouts of the four fixed-width converters and of Signature <-> [u8; 65]; every serde serializer/deserializer pair branches on is_human_readable with the same polarity and the same family (hex / sequence) on each side; predicate and mutation encoders, size helpers and decoders agree on offsets (linear forms), the list codec writes/reads the count first and advances by encode_size; node_edges is empty exactly for edge_start == MAX and otherwise a checked sub-range; the legacy field names (data, decision_variables) reach the same fields as the current names and only current names are written; Display/FromStr use encode_upper/decode with the same array length. Also decided: derived binary framing (every struct field written unconditionally in order; visit_seq reads one element per field in that order) and that list decoders stop exactly at the end of input. The predicate decoder returns only after reading all four parts; human-readable deserializers accept owned input. words <-> hex text both go through bytes_from_word / word_from_bytes and the hex crate. Predicate::{encode,decode,encoded_size} forward their argument unchanged to the codec functions. The single-mutation reader rejects exactly the five malformed shapes (a key or value of length 0 is accepted).",
   "note": "Trusted: hex, serde, postcard. Breaking any decided clause breaks a round trip; the converse is not claimed.",
   "technique": "static analysis: aggregate-element provenance (layouts), path-condition polarity pairing, symbolic linear forms of offsets, string-literal to field tables of derive-generated visitors",
   "design_ref": "3/C18",
@@ -28,13 +28,13 @@ CLAIMS = {
   "design_ref": "3/C19",
  },
  "C01": {
-  "text": "Partial claim. The behavioural equivalence with the graph reference semantics (exactly-once execution, numbering independence, concatenation order, gas/data-output equality) is NOT decided by static analysis. Decided clauses: graph validation (parent map, level order) dominates every site that can start a node program; an empty level while nodes remain (cycle) and invalid edge ranges are errors; every edge value used as a node index is compared with nodes.len(); the leaf interpretation table is exactly [1] -> satisfied, [2] -> data output of vm.memory, anything else -> unsatisfied, with leaf = node without edges and parents exporting (stack, memory); parent inputs are taken from the parent map in ascending order and each node runs the program of its own address. Deferral closure and the run-mode split are decided under C03. Also decided: the level-order bookkeeping per edge (in-degree = entries of the parent list, one decrement per edge of a finished parent, removal after scheduling), and that per-solution data (cross-pass cache, predicate, index, outputs, computed mutations) stays with its solution by index. The node-output maps only grow during the level loop; node_edges answers None for malformed ranges (table). Stack / Memory built from concatenated parent results are accepted exactly up to the VM limits; deferral is decided exactly (C15-R2/R3, C03-R3 re-evaluated). The deferred set is closed under descendants and the Effects flags are distinct single bits (C03-R5, C15-R1 re-evaluated).",
+  "text": "Partial claim. The behavioural equivalence with the graph reference semantics (exactly-once execution, numbering independence, concatenation order, gas/data-output equality) is NOT decided by static analysis. Decided clauses: graph validation (parent map, level order) dominates every site that can start a node program; an empty level while nodes remain (cycle) and invalid edge ranges are errors; every edge value used as a node index is compared with nodes.len(); the leaf interpretation table is exactly [1] -> satisfied, [2] -> data output of vm.memory, anything else -> unsatisfied, with leaf = node without edges and parents exporting (stack, memory); parent inputs are taken from the parent map in ascending order and each node runs the program of its own address. Deferral closure and the run-mode split are decided under C03. Also decided: the level-order bookkeeping per edge (in-degree = entries of the parent list, one decrement per edge of a finished parent, removal after scheduling), and that per-solution data (cross-pass cache, predicate, index, outputs, computed mutations) stays with its solution by index. The node-output maps only grow during the level loop; node_edges answers None for malformed ranges (table). Stack / Memory built from concatenated parent results are accepted exactly up to the VM limits; deferral is decided exactly (C15-R2/R3, C03-R3 re-evaluated). The deferred set is closed under descendants and the Effects flags are distinct single bits (C03-R5, C15-R1 re-evaluated). The verdict of one graph is Ok only after every level ran and nothing failed or was unsatisfied (return table); each parent output is taken from the cross-pass cache first and from this pass's cache otherwise, at both start sites; every node's VM is given the whole set and the index of the solution being checked.",
   "note": "These are necessary conditions of the property; breaking any of them changes verdicts. The sufficient direction is out of reach for this technique family.",
   "technique": "static analysis: dominance of validation over execution sites, return tables of the graph functions, match table of the leaf interpretation",
   "design_ref": "3/C01",
  },
  "C08": {
-  "text": "Decides the dispatch and the scalar operations, for which operator, operand order and operand type in MIR are the semantics: all 62 spec ops reach the handler of the reviewed dispatch table; comparison/logic/bit ops are exactly the operator named by asm.yml's stack_out expression on (a, b) in that order with From<bool>; Add/Sub/Mul/Div/Mod are i64::checked_* with None -> error and no other integer op; Shl/Shr/ShrI have the right operand types (logical vs arithmetic) and are dominated by the 0..64 bound check; pop2 returns [below-top, top]; popN_pushM apply f to the popped words in order and push only its `?`-checked result; the error index is pc before any update; memory readers take shared references. Partial claim: data-movement ops (SwapIndex, DupFrom, Select*, Reserve, Drop, Load/Store, ranges, sets) are value-level and declined. Also decided (R5) stack effect of every fixed-arity op equals asm.yml and operands are popped, never peeked; (R6) the positions addressed by DupFrom, SwapIndex, Load, Store, Reserve, SelectRange, Drop/pop_len_words*, EqRange, EqSet/decode_set, Alloc, Free and the memory Load/Store/LoadRange/StoreRange ops as symbolic linear forms of the length and the popped operands, their bound guards as linear comparisons, the length being read after the operands are popped, and the operand wiring of step_op_memory. Each memory op and the from-words constructors succeed only under their bound (one Ok return under the bound comparison, counted failing returns). Wiring of the ParentMemory ops: the checked Memory::load / load_range on the innermost parent memory with the popped operands in spec order.",
+  "text": "Decides the dispatch and the scalar operations, for which operator, operand order and operand type in MIR are the semantics: all 62 spec ops reach the handler of the reviewed dispatch table; comparison/logic/bit ops are exactly the operator named by asm.yml's stack_out expression on (a, b) in that order with From<bool>; Add/Sub/Mul/Div/Mod are i64::checked_* with None -> error and no other integer op; Shl/Shr/ShrI have the right operand types (logical vs arithmetic) and are dominated by the 0..64 bound check; pop2 returns [below-top, top]; popN_pushM apply f to the popped words in order and push only its `?`-checked result; the error index is pc before any update; memory readers take shared references. Partial claim: data-movement ops (SwapIndex, DupFrom, Select*, Reserve, Drop, Load/Store, ranges, sets) are value-level and declined. Also decided (R5) stack effect of every fixed-arity op equals asm.yml and operands are popped, never peeked; (R6) the positions addressed by DupFrom, SwapIndex, Load, Store, Reserve, SelectRange, Drop/pop_len_words*, EqRange, EqSet/decode_set, Alloc, Free and the memory Load/Store/LoadRange/StoreRange ops as symbolic linear forms of the length and the popped operands, their bound guards as linear comparisons, the length being read after the operands are popped, and the operand wiring of step_op_memory. Each memory op and the from-words constructors succeed only under their bound (one Ok return under the bound comparison, counted failing returns). Wiring of the ParentMemory ops: the checked Memory::load / load_range on the innermost parent memory with the popped operands in spec order. Select / SelectRange conditions go through bool_from_word and 1 keeps the top (C09-R1 re-evaluated).",
   "note": "tables/dispatch.json is the reviewed dispatch table of the pinned tree. asm.yml stack_out expressions are the oracle for scalar ops.",
   "technique": "static analysis: MIR match tables vs a reviewed dispatch table; return-value provenance of handler closures vs expressions parsed from asm.yml; operand-type and dominance checks",
   "design_ref": "3/C08",
@@ -52,7 +52,7 @@ CLAIMS = {
   "design_ref": "3/C02",
  },
  "C10": {
-  "text": "Decides the structural clauses of Compute: deterministic index-ordered join (rayon consumer into Vec, first error by index), the fork guarded by breadth >= 1 and depth < MAX_COMPUTE_DEPTH = 1, the child's initial state table (pc+1, parent stack clone + one guarded push of the index, fresh memory, parent-memory snapshot, cloned repeat/cache/access/op accessor, same gas limit and state), the join (one alloc of the summed child lengths dominating all stores, stores in result order at a pointer starting at the old length and advancing by each child's length, pc = max, halt = disjunction, gas = saturating sum, child error propagated first), and that the parent's stack is popped once. Partial claim: `as if run one after another` follows from C02 + these tables informally. compute fails for exactly the documented reasons (missing breadth word, breadth < 1, depth reached, child error, join error). Every capture of the child closure resolves to the parent's live state at the fork (not to an earlier snapshot). Children read parent memory through the checked accessors, and the join's alloc succeeds exactly while the combined length is within the limit.",
+  "text": "Decides the structural clauses of Compute: deterministic index-ordered join (rayon consumer into Vec, first error by index), the fork guarded by breadth >= 1 and depth < MAX_COMPUTE_DEPTH = 1, the child's initial state table (pc+1, parent stack clone + one guarded push of the index, fresh memory, parent-memory snapshot, cloned repeat/cache/access/op accessor, same gas limit and state), the join (one alloc of the summed child lengths dominating all stores, stores in result order at a pointer starting at the old length and advancing by each child's length, pc = max, halt = disjunction, gas = saturating sum, child error propagated first), and that the parent's stack is popped once. Partial claim: `as if run one after another` follows from C02 + these tables informally. compute fails for exactly the documented reasons (missing breadth word, breadth < 1, depth reached, child error, join error). Every capture of the child closure resolves to the parent's live state at the fork (not to an earlier snapshot). Children read parent memory through the checked accessors, and the join's alloc succeeds exactly while the combined length is within the limit. step_op hands compute the executing VM's own live state field by field (including a clone of its parent-memory stack, the depth counter); an invalid HaltIf condition is a child error (C09 re-evaluated).",
   "note": "Bounds of alloc/store are C05; gas limit handling is C07.",
   "technique": "static analysis: aggregate-field provenance table for the child Vm, dominance and def-use of the join closures, resolved rayon consumer types",
   "design_ref": "3/C10",
@@ -76,7 +76,7 @@ CLAIMS = {
   "design_ref": "3/C17",
  },
  "C03": {
-  "text": "Decides the structural clauses that make post-state reads see pre-state + all of the set's mutations: the pre/post x own/extern routing table (derived from variant names), that the first pass runs with an empty post view, that the insert loop covers every solution and mutation of the set returned by the first pass keyed by (contract, key), that the second pass is dominated by the first and given the built view, that the view forwards requests unchanged and delegates to the pre-state where nothing is proposed, that the deferral mask contains every Post* flag, the run-mode split, and that deferral is closed under descendants (fixed point). Partial claim: the overlay arithmetic is not decided. Also decided: the per-key overlay loop (a mutated key yields the mutation's value, any other key one value read from the pre-state at the same key; key advanced by next_key once per value; loop ends at num_values or the last key) and next_key's carry table. The Effects flags are distinct single bits (C15-R1 re-evaluated).",
+  "text": "Decides the structural clauses that make post-state reads see pre-state + all of the set's mutations: the pre/post x own/extern routing table (derived from variant names), that the first pass runs with an empty post view, that the insert loop covers every solution and mutation of the set returned by the first pass keyed by (contract, key), that the second pass is dominated by the first and given the built view, that the view forwards requests unchanged and delegates to the pre-state where nothing is proposed, that the deferral mask contains every Post* flag, the run-mode split, and that deferral is closed under descendants (fixed point). Partial claim: the overlay arithmetic is not decided. Also decided: the per-key overlay loop (a mutated key yields the mutation's value, any other key one value read from the pre-state at the same key; key advanced by next_key once per value; loop ends at num_values or the last key) and next_key's carry table. The Effects flags are distinct single bits (C15-R1 re-evaluated). Second-pass nodes receive their first-pass parents' outputs (C01-R4), and the set the overlay is built from keeps every declared mutation (only `push` on state_mutations).",
   "note": "Depends on C15 (exactness of the byte scan). Value-level clauses (next_key carry, straddling ranges, deletion) are not decided.",
   "technique": "static analysis: MIR match tables, provenance of call arguments, dominance between passes, natural-loop structure (fixed-point detection)",
   "design_ref": "3/C03",
